@@ -2,7 +2,7 @@
    Proofs.v and followed by Print Assumptions.  Statements are over the regenerated
    Gen/C07Gen.v (align_offset, validate_write_options) and the model in C07/Model.v. *)
 From Coq Require Import ZArith List Bool Lia Permutation.
-From IRV Require Import Base.Exn Gen.C07Gen C07.Model C07.Proofs.
+From IRV Require Import Base.Exn Gen.C07Gen C07.Model C07.Proofs C07.Names.
 Import ListNotations.
 Open Scope Z_scope.
 
@@ -101,6 +101,13 @@ Theorem C07_st_shards_nonempty :
   Forall (fun s => s <> []) (st_shard size ts (Some m)).
 Proof. intros. simpl. apply st_shard_go_nonempty. right. assumption. Qed.
 Print Assumptions C07_st_shards_nonempty.
+
+(* Distinct shards get distinct file names (so "every tensor is in exactly one shard" also holds at file level). *)
+Theorem C07_shard_names_distinct :
+  forall stem ext total i j, total <> 1%nat ->
+  shard_name stem ext i total = shard_name stem ext j total -> i = j.
+Proof. exact shard_name_inj. Qed.
+Print Assumptions C07_shard_names_distinct.
 
 (* Read-back: when the ranges are pairwise disjoint, after all writes (in ANY order, i.e. any
    serial or concurrent completion order) each range holds exactly its tensor's bytes. *)
